@@ -40,7 +40,7 @@ def gen_callbacks(r, typ):
         k = r.choice(kinds)
         period = r.choice([1, 1, 2, 2, 3, 4, 5])
         if k == "metric":
-            out.append({"kind": "metric", "period": period, "log": r.random() < 0.6, "two": r.random() < 0.5, "verbose": r.random() < 0.2})
+            out.append({"kind": "metric", "period": period, "log": r.random() < 0.6, "two": r.random() < 0.5, "verbose": r.random() < 0.2, "names": r.choice([["alpha", "beta"], ["alpha", "beta"], ["period", "log"], ["names", "metrics"], ["m 1", "m-2"]])})
         elif k == "observable":
             out.append({"kind": "observable", "period": period, "log": r.random() < 0.6, "obs": r.choice([["Z"], ["user"], ["Z", "user"], ["X"]]), "num_samples": r.choice([2, 4, 5]), "num_chains": r.choice([0, 2]), "verbose": r.random() < 0.2})
         elif k == "logger":
@@ -53,7 +53,7 @@ def gen_callbacks(r, typ):
                     "save_initial": r.random() < 0.6,
                     "metadata": r.choice(["callable", "dict", "dict", "none"]),
                     "metadata_only": r.random() < 0.2,
-                    "file_name": r.choice(["ep{}.pt", "model_{}", "ck-{}-x.pt"]),
+                    "file_name": r.choice(["ep{}.pt", "model_{}", "ck-{}-x.pt", "ck_{:03}.pt", "{:>5}-m.pt"]),
                 }
             )
     return out
@@ -162,9 +162,11 @@ def execute(plan):
                         rec["calls"].append((cur["run"], cur["epoch"], "b", dict(kw)))
                         return pure_metric_b(nn_state)
 
-                    metrics = {"alpha": m_a}
+                    nm_a, nm_b = spec.get("names", ["alpha", "beta"])
+                    rec["key_of"] = {nm_a: "alpha", nm_b: "beta"}
+                    metrics = {nm_a: m_a}
                     if spec.get("two"):
-                        metrics["beta"] = m_b
+                        metrics[nm_b] = m_b
                     rec["log"] = f"/logs/metric{i}.csv" if spec.get("log") else None
                     cb = MetricEvaluator(spec["period"], metrics, verbose=spec.get("verbose", False), log=rec["log"], offset=3)
                     rec["names"] = list(metrics.keys())
@@ -272,7 +274,7 @@ def execute(plan):
                 first_kept = max([ri for (ri, i) in cleared_before if i == rec["i"]] or [0])
                 kept = [k for k in due if k[0] >= first_kept]
                 names = rec["names"]
-                vals = [{n: ee_metric[k][n] for n in names} for k in kept]
+                vals = [{n: ee_metric[k][rec["key_of"][n]] for n in names} for k in kept]
                 pass
                 try:
                     if len(ev) != len(kept):
@@ -283,7 +285,11 @@ def execute(plan):
                         run.violate("17-names", f"names accessor {ev.names}", **detail)
                     for n in names:
                         want = [v[n] for v in vals]
-                        for acc, got in (("getitem", list(ev[n])), ("getattr", list(getattr(ev, n)))):
+                        # attribute-style access is only meaningful for names that are not attributes of the evaluator itself
+                        forms = [("getitem", list(ev[n]))]
+                        if n.isidentifier() and n not in ("period", "log", "names", "metrics", "last", "epochs", "verbose", "past_values", "csv_fields", "metric_kwargs"):
+                            forms.append(("getattr", list(getattr(ev, n))))
+                        for acc, got in forms:
                             if got != want:
                                 run.violate("17-values", f"{acc} '{n}' = {got[:6]}, witnessed {want[:6]}", accessor=acc, **detail)
                         for ix in range(-len(kept), len(kept)):
@@ -395,7 +401,7 @@ def execute(plan):
                 actions += len(due)
                 accessors(rec, "end")
                 if rec["log"]:
-                    _check_csv(run, disk, rec["log"], ["epoch"] + names, [dict(epoch=k[1], **ee_metric[k]) for k in due], names, detail)
+                    _check_csv(run, disk, rec["log"], ["epoch"] + names, [dict(epoch=k[1], **{n: ee_metric[k][rec["key_of"][n]] for n in names}) for k in due], names, detail)
             elif spec["kind"] == "observable":
                 ev = rec["cb"]
                 calls = [(r_, e) for (r_, e, _, _) in rec["calls"]]
@@ -448,7 +454,10 @@ def execute(plan):
                         if k[0] == ri:
                             names_due.append((ri, k[1], str(k[1])))
                 opens = [pth for (pth, mode) in disk.opens if pth.startswith(folder + "/")]
-                want_paths = [folder + "/" + spec["file_name"].format(lbl) for (_, _, lbl) in names_due]
+                def fname(e_, lbl_):
+                    return folder + "/" + spec["file_name"].format("initial" if lbl_ == "initial" else e_)
+
+                want_paths = [fname(e_, lbl_) for (_, e_, lbl_) in names_due]
                 if full and opens != want_paths:
                     run.violate("17-schedule", f"checkpoints written {[_short(x) for x in opens][:10]}, due {[_short(x) for x in want_paths][:10]}", **detail)
                 if spec["metadata"] == "callable" and full:
@@ -462,7 +471,7 @@ def execute(plan):
                 # content of every completed checkpoint: last writer wins per path
                 latest = {}
                 for (ri, e, lbl) in names_due:
-                    latest[folder + "/" + spec["file_name"].format(lbl)] = (ri, e, lbl)
+                    latest[fname(e, lbl)] = (ri, e, lbl)
                 completed = set(disk.completed)
                 for pth, (ri, e, lbl) in latest.items():
                     if pth not in completed:
